@@ -656,6 +656,13 @@ func (sel *Selection) Set(v val.Value) error {
 		Write: true,
 		Meta:  m,
 	}
+	if v != nil && sel.parent != nil {
+		// one case of a choice holds data, like on any other edit what
+		// another case holds goes first
+		if err := (editor{}).clearOnDifferentChoiceCase(sel.parent, m); err != nil {
+			return err
+		}
+	}
 	return sel.set(&r, &ValueHandle{Val: v})
 }
 
